@@ -1,4 +1,5 @@
-(** Per-run instance for C09 / C10 / C11 (also usable by C08 / C15): the regenerated skeletons of
+(** Per-run instance for C09 / C10 / C11 (also usable by C08 / C15), LoadFilter part (Supported and
+    SetNoNewPrivs are in SupportedInst.v, so that a change to them does not disturb C10 / C11): the regenerated skeletons of
     seccomp_linux.go (gen/GenSkeletons.v) and the regenerated constants (gen/GenConsts.v, target linux/amd64)
     satisfy the specifications of LoaderProofs.v. Compiled on every run against the current /repo; the proofs
     are the symbolic-execution tactics of LoaderProofs.v (case split on the filter and the pin count, evaluation
@@ -20,23 +21,12 @@ Definition gen_lc : lconsts := Eval vm_compute in
   | None => {| lc_set_mode_strict := 99; lc_set_mode_filter := 99; lc_pr_set_nnp := 99; lc_tsync := 99; lc_log := 99 |}
   end.
 
-(** LoadFilter / Supported / SetNoNewPrivs of the current tree, over any kernel *)
+(** LoadFilter of the current tree, over any kernel *)
 Definition gen_load K ksec kprctl := load_sem K ksec kprctl seccomp_funs gen_lc.
-Definition gen_supported K ksec kprctl := supported_sem K ksec kprctl seccomp_funs gen_lc.
-Definition gen_set_nnp K ksec kprctl := set_nnp_sem K ksec kprctl seccomp_funs gen_lc.
 
 Lemma gen_load_spec : forall K ksec kprctl, load_spec K ksec kprctl (load_sem K ksec kprctl seccomp_funs gen_lc).
 Proof. prove_load_spec. Qed.
 
-Lemma gen_supp_spec : forall K ksec kprctl, supp_spec K ksec (supported_sem K ksec kprctl seccomp_funs gen_lc).
-Proof. prove_supp_spec. Qed.
-
-Lemma gen_setnnp_spec : forall K ksec kprctl, setnnp_spec K kprctl (set_nnp_sem K ksec kprctl seccomp_funs gen_lc).
-Proof. prove_setnnp_spec. Qed.
-
 (** over the kernel model of KernelState.v *)
 Definition kload : kworld -> filt -> kworld * lres := gen_load kstate do_seccomp do_prctl.
-Definition ksupported : kworld -> kworld * option bool := gen_supported kstate do_seccomp do_prctl.
-
 Definition kload_spec : load_spec kstate do_seccomp do_prctl kload := gen_load_spec kstate do_seccomp do_prctl.
-Definition ksupported_spec : supp_spec kstate do_seccomp ksupported := gen_supp_spec kstate do_seccomp do_prctl.
